@@ -7,10 +7,11 @@
    mirroring ring.go; branch conditions from Gen/RingIdx.v).
    Reference: Ring/RingSpec.v ([a_run]: a set of disjoint cyclic sequences of element names plus
    the value of every name; each operation is the picture of the Go doc comment on lists). *)
-From Coq Require Import ZArith List Permutation.
+From Coq Require Import ZArith List Permutation Lia.
 Import ListNotations.
 From Mds Require Import Ring.RingModel Ring.RingSpec Ring.RingProofsBase Ring.RingProofsRep Ring.RingProofs
-  Ring.RingProofsPictures.
+  Ring.RingProofsPictures Ring.RingProofsInt.
+From Mds Require Import Gen.RingIdx.
 
 (* Refinement over histories: for every element type, every zero value and EVERY list of
    operations (New, Of, Join, Pop, Next, Prev, At, Peek, Len, Each with a callback stopping at any
@@ -143,3 +144,31 @@ Example C10_ring_pictures_ex :
   cycles (a_run_state nat 0 (a_empty nat 0) ops) = [[4;5]; [0;3;2;1]] /\
   Rep nat (run_heap nat 0 empty_heap ops) (a_run_state nat 0 (a_empty nat 0) ops).
 Proof. split; [vm_compute; reflexivity|apply C10_ring_wellformed]. Qed.
+
+(* ---- machine ints in At/Peek ----
+   The model counts the offset in unbounded Z, the Go code in a 64-bit int.  For EVERY offset in
+   [-2^63, 2^63) -- the minimum int included -- on every heap and for every receiver, the loop run
+   with 64-bit wrap-around arithmetic on the counter (at64, peek64) is the loop of the model: the
+   offset is moved toward zero and never negated, so no counter value leaves the int64 range. *)
+Theorem C10_ring_at_int64 : forall (T : Type) (zero : T) (r : ptr) (n : Z) (h : heap T),
+  int64 n -> at64 r n h = at_ r n h /\ peek64 T zero r n h = peek T zero r n h.
+Proof. intros T zero r n h Hn. split; [exact (at_width T r n h Hn)|exact (peek_width T zero r n h Hn)]. Qed.
+Print Assumptions C10_ring_at_int64.
+
+(* one iteration of At's loop from an in-range non-zero counter gives an in-range counter that is
+   zero or has the same sign (so the same step applies again): by induction every counter value
+   of every run from an int64 offset is an int64 *)
+Theorem C10_ring_at_counter_in_range : forall n : Z, int64 n -> at_more n = true ->
+  let step := if at_neg n then at_step_back else at_step_fwd in
+  int64 (at_dec n step) /\ (at_dec n step = 0%Z \/ at_neg (at_dec n step) = at_neg n).
+Proof. exact at_counter_in_range. Qed.
+Print Assumptions C10_ring_at_counter_in_range.
+
+(* the minimum int is an int64, and At/Peek with it on the ring Of 1 2 3 give nil / (zero, false) *)
+Example C10_ring_at_int64_ex :
+  int64 (- 2 ^ 63) /\
+  let h := run_heap nat 0 empty_heap [OOf [1;2;3]] in
+  run nat 0 h [OAt (Some 0) (- 2 ^ 63); OPeek (Some 0) (- 2 ^ 63); OAt (Some 0) (- 2 ^ 63 + 1);
+               OAt (Some 0) (2 ^ 63 - 1); OAt (Some 0) (-2); OAt (Some 0) 2]
+  = [RPtr None; RPeek 0 false; RPtr None; RPtr None; RPtr (Some 2); RPtr (Some 1)].
+Proof. split; [unfold int64; rewrite pow63; lia|vm_compute; reflexivity]. Qed.
